@@ -272,7 +272,7 @@ def build_entry(it, c, fnode, fr):
     if c.setup:
         c.setup(it, fr)
     for r in c.requires:
-        ctx.assume(it.spec_eval(r, fr))
+        ctx.assume(truthy(ctx, it.spec_eval(r, fr)))
     fr.locs['old!'] = _snapshot({k: v for k, v in fr.locs.items() if k != 'old!'})
     if not c.segment:
         fr.locs['entry!'] = {n: fr.locs[n] for n in names if n in fr.locs}
@@ -307,7 +307,7 @@ def check_outcome(it, c, fr, outcome, value):
     if outcome == 'return':
         fr.locs['result'] = value
         for k, cl in enumerate(c.ensures):
-            f = it.spec_eval(cl, fr)
+            f = truthy(ctx, it.spec_eval(cl, fr))
             ctx.oblige(f'post:{k}', 'post', f, cl)
         for k, case in enumerate(c.raises):
             if case.get('iff') is not None:
@@ -341,11 +341,11 @@ def check_outcome(it, c, fr, outcome, value):
         else:
             ctx.refute(f'rte:{e.cls.__name__}', 'rte', f'{e.cls.__name__}{_fmt_args(e.args)} escapes {c.qualname}')
         for k, cl in enumerate(c.final or ()):
-            ctx.oblige(f'final:{k}', 'post', it.spec_eval(cl, fr), cl)
+            ctx.oblige(f'final:{k}', 'post', truthy(ctx, it.spec_eval(cl, fr)), cl)
         return
     if outcome == 'return':
         for k, cl in enumerate(c.final or ()):
-            ctx.oblige(f'final:{k}', 'post', it.spec_eval(cl, fr), cl)
+            ctx.oblige(f'final:{k}', 'post', truthy(ctx, it.spec_eval(cl, fr)), cl)
 
 
 def _overlay(fr, entry):
